@@ -685,6 +685,7 @@ func cmdCheckC19(tier string, seed int) int {
 	}
 	sort.Strings(retSh)
 	nf := len(fa.perFunc)
+	nall := len(fa.funcs())
 	ev := map[string]any{
 		"property_id": prop, "tier": tier, "seed": seed, "level": "other", "wall_s": time.Since(t0).Seconds(), "violations": len(fa.violations),
 		"coverage": map[string]any{
@@ -692,7 +693,7 @@ func cmdCheckC19(tier string, seed int) int {
 			"obligations": fa.obligation, "discharged": fa.obligation - len(fa.violations),
 			"checker_cmd": "/verif/bin/kvc check C19 --tier " + tier,
 			"trusted_base": []string{"T-SSA: go/ssa build of the package", "the taint analysis of /verif/engine/cmd/kvc/frame.go (syntactic back end, no solver)"},
-			"functions_analysed": nf, "package_level_variables": globals, "functions_returning_shared_memory": retSh,
+			"functions_analysed": nall, "functions_with_write_sites": nf, "package_level_variables": globals, "functions_returning_shared_memory": retSh,
 			"exempt_registration_api": []string{"init", "AddScalarFunction", "AddAggrFunction"},
 			"samples": fa.samples, "evaluations": fa.obligation, "distinct_nontrivial": fa.obligation,
 		},
@@ -707,7 +708,7 @@ func cmdCheckC19(tier string, seed int) int {
 	os.MkdirAll(filepath.Join(verifDir(), "evidence"), 0o755)
 	b, _ := json.MarshalIndent(ev, "", " ")
 	os.WriteFile(filepath.Join(verifDir(), "evidence", prop+".json"), b, 0o644)
-	fmt.Printf("C19: %d functions, %d write sites checked, %d write shared library state, %.1fs\n", nf, fa.obligation, len(fa.violations), time.Since(t0).Seconds())
+	fmt.Printf("C19: %d functions (%d with write sites), %d write sites checked, %d write shared library state, %.1fs\n", nall, nf, fa.obligation, len(fa.violations), time.Since(t0).Seconds())
 	if len(fa.violations) > 0 {
 		return 1
 	}
